@@ -61,13 +61,39 @@ def randoms(seed, n):
     for i in range(n):
         rng = Rng(seed * 1000003 + i)
         g = gen.WfGen(rng.fork("wf"), depth=2, max_steps=3, max_branches=3, max_acts=2, p_if=10, mixed=True,
-                      act_kinds=((gen.IRQ, 6), (gen.MSG, 2), (gen.SET, 1)))
+                      act_kinds=((gen.IRQ, 6), (gen.MSG, 2), (gen.SET, 1)), catches=(i % 3 == 2))
         w = g.workflow("m1")
         # conditions need inputs
         ops = [["deploy", 0], ["start", "m1", {"pid": "p1", "x": rng.below(4), "y": rng.below(4)}]]
-        ops += gen.random_history(rng.fork("h"), n=rng.range(6, 16))
+        hist = gen.random_history(rng.fork("h"), n=rng.range(6, 16), actions=(gen.ACTIONS + ["error", "error", "next"]) if i % 3 == 2 else None)
+        if i % 3 == 2:
+            # the process is dropped from the cache at quiescent points: the once-only catch mark has to survive a reload
+            out = []
+            for op in hist:
+                out.append(op)
+                if op[0] == "runall" and rng.chance(1, 2):
+                    out.append(["evict", "p1"])
+            hist = out
+        ops += hist
         scs.append({"id": f"r-{seed}-{i}", "config": {"keep": rng.chance(1, 2)}, "models": [w], "ops": ops,
                     "features": sorted(g.features)})
+    return scs
+
+
+def reloads(seed, n):
+    """the catch exception is 'once' across reloads too: a catch takes an error, the process is dropped from the cache at every quiescent
+    point, the handler fails or ends (the C12 catch family with evictions)"""
+    from . import c12
+    scs = []
+    for k in range(n):
+        i = 6 * k + 5
+        w, exprs, ops, rng = c12.gen_base(seed, i)
+        out = []
+        for op in ops:
+            out.append(op)
+            if op[0] == "runall":
+                out.append(["evict", "p1"])
+        scs.append({"id": f"reload-{seed}-{k}", "config": {"keep": True}, "models": [w], "ops": out, "features": ["catch", "reload"]})
     return scs
 
 
@@ -112,9 +138,10 @@ def run(ctx):
     scs = matrix()
     n = 300 if ctx.tier == "quick" else 6000
     scs += randoms(ctx.seed, n)
+    scs += reloads(ctx.seed, 40 if ctx.tier == "quick" else 600)
     evaluate(ctx, scs)
     ctx.cov["rule"] = ("action x closing-state x target matrix (exhaustive, %d cases) + seeded random histories of valid and "
-                       "invalid actions with partial queue releases; non-trivial = >=2 terminal writes and >=3 accepted "
+                       "invalid actions with partial queue releases (a third with catches and evictions) + the catch family reloaded at every quiescent point; non-trivial = >=2 terminal writes and >=3 accepted "
                        "operations; distinct by (model, ops)" % len(matrix()))
     ctx.cov["clauses_proved"] = ["state classes = stages (K1)", "guarded arms write legal transitions (K1)",
                                  "terminal acts absorb the seven actions (K1)", "monitor soundness"]
